@@ -113,6 +113,13 @@ def register_t1(J):
                  expect=[r"key_file_append\.postcondition"], model="realloc replaced by its contract (fresh object of the requested size)",
                  statement="C11 growth step for EVERY length/alloc_length: one more live entry, length <= alloc_length, the "
                            "array grows by exactly one slot when it is full and that slot (and only that) is initialised."))
+    J.append(Job("newkeyfile", ["C11", "C20", "C04"], "harness/growth.c", sources=["lib/libeconf.c"],
+                 contracts=["contracts/growth.h"], enforce="econf_newKeyFile", replace=["initialize"], unwind=10, tier="T1",
+                 defines=["-DPART_NEWKF=1"], timeout=300, mem_gb=4, expect=[r"econf_newKeyFile\.postcondition", r"initialize\.precondition"],
+                 trusted=["calloc/malloc do not fail (--no-malloc-may-fail); the NOMEM branches are not exercised"],
+                 statement="C11: econf_newKeyFile yields the empty configuration: length 0, KEY_FILE_DEFAULT_LENGTH spare "
+                           "slots each initialised exactly once in order, the given delimiter/comment character, no "
+                           "options, layers, sections, path (the loop has a constant bound and is unwound completely)."))
     J.append(Job("grouplist", ["C11", "C04"], "harness/growth.c", sources=["lib/helpers.c"], contracts=["contracts/growth.h"],
                  enforce="getFromGroupList", replace=["strcmp"], loop_tags=["grouplist"], unwind=8, tier="T1",
                  defines=["-DPART_GROUPLIST=1"], timeout=300, mem_gb=4, expect=[r"loop_invariant_step"],
